@@ -167,6 +167,10 @@ def handle (cmd : String) (j : J) : Except String J :=
     let spans ← parseSpans (← j.get "spans")
     let (ps, comp) := FeatureSpec.denote spans (← (← j.get "minus").toBool) (← (← j.get "p0").toInt) (← (← j.get "p1").toInt)
     pure (J.obj [("pos", J.arr (ps.map J.num)), ("comp", J.bool comp)])
+  | "denote_contig" => do
+    let spans ← parseSpans (← j.get "spans")
+    let (ps, comp) := FeatureSpec.denoteContig spans (← (← j.get "minus").toBool) (← (← j.get "p0").toInt) (← (← j.get "p1").toInt)
+    pure (J.obj [("pos", J.arr (ps.map J.num)), ("comp", J.bool comp)])
   | _ => throw s!"unknown command {cmd}"
 
 def main : IO Unit := driverLoop handle
